@@ -34,7 +34,7 @@ pub fn in_support(power: f64, y: &[f64]) -> bool {
 }
 
 
-pub const ISO_TIMEOUT_MS: u64 = 3000;
+pub const ISO_TIMEOUT_MS: u64 = 2000;
 /// longest run time of an isolated fit that DID return (evidence for the timeout margin)
 pub static MAX_CHILD_MS: std::sync::atomic::AtomicU64 = std::sync::atomic::AtomicU64::new(0);
 
